@@ -84,10 +84,13 @@ def _stop_kw(stop):
     return {"on_progress": cb, "progress_interval": 1}
 
 
-def h_cg(s, W, sizes, D, stop=0, limits=None):
+def h_cg(s, W, sizes, D, stop=0, limits=None, fixed=None):
     Status = importlib.import_module("solvor.types").Status
     mod = importlib.import_module("solvor.cg")
-    dem = [s.int("demand%d" % i, 0, D) for i in range(len(sizes))]
+    if fixed is not None:  # concrete demand vector (wide rolls: the pricing DP has 100 * W cells, too many to run on symbolic duals)
+        dem = [s.int("demand%d" % i, v, v) for i, v in enumerate(fixed)]
+    else:
+        dem = [s.int("demand%d" % i, 0, D) for i in range(len(sizes))]
     s.stub(mod, float=sym_float)
     res = mod.solve_cg(list(dem), roll_width=W, piece_sizes=list(sizes), **_stop_kw(stop), **(limits or {}))
     if limits:
@@ -250,6 +253,12 @@ def items(tier, rng):
                     "max_paths": 400, "spread": rng.randrange(1 << 30)})
         out.append({"name": "bp_custom_limit", "harness": "h_bp_custom", "split": 2,
                     "params": {"pool": pool, "initial": init, "D": 2, "limits": [{"max_iter": 0}, {"max_nodes": 1}, {"max_iter": 1, "max_nodes": 2}][k % 3]}})
+    # wide rolls (width > 100, where the pricing routine's integer scaling changes regime) with exact-fill mixed patterns
+    for (W, sizes) in [(120, [20, 50]), (130, [30, 50]), (150, [40, 70])]:
+        vecs = [v for v in itertools.product(range(6), repeat=len(sizes)) if any(v)]
+        for vec in rng.sample(vecs, 8 if q else 40) + [tuple([5] * len(sizes))]:
+            out.append({"name": "cg_wide", "harness": "h_cg", "params": {"W": W, "sizes": sizes, "D": 5, "fixed": list(vec)}, "max_paths": 50})
+            # (solve_bp is not run on wide rolls: natively it needs 20 s and more per instance there)
     # a coarse gap_tol (0.1 / 0.25) on instances with a piece so small that 1/gap_tol copies fit in a roll: OPTIMAL still has to be the minimum
     for (W, sizes) in [(14, [1, 10]), (12, [1, 7]), (10, [1, 3, 6])]:
         vecs = list(itertools.product(range(4), repeat=len(sizes)))
